@@ -36,10 +36,10 @@ func pertSites(lines []string) []Pert {
 		if ngaps == 7 {
 			out = append(out, Pert{"gap", i, 4, 2}) // blank after the comma removed
 		}
-		out = append(out, Pert{"trail", i, 0, 0}, Pert{"trail", i, 0, 1})
+		out = append(out, Pert{"trail", i, 0, 0}, Pert{"trail", i, 0, 1}, Pert{"trail", i, 0, 2}, Pert{"trail", i, 0, 3})
 	}
 	for b := 0; b <= len(lines); b++ {
-		for v := 0; v < 8; v++ {
+		for v := 0; v < 9; v++ {
 			out = append(out, Pert{"insert", b, 0, v})
 		}
 	}
@@ -87,6 +87,8 @@ func applyPerts(lines []string, ps []Pert) (string, bool) {
 				sb.WriteString(";strategy" + eol + ";strategy x" + eol)
 			case 7:
 				sb.WriteString(";redcode-94" + eol)
+			case 8:
+				sb.WriteString("; x ; y ;; ORG 1 ; END" + eol)
 			default:
 				sb.WriteString("   \t " + eol)
 			}
@@ -132,10 +134,15 @@ func applyPerts(lines []string, ps []Pert) (string, bool) {
 			}
 		}
 		if v, ok := find("trail", i, 0); ok {
-			if v == 0 {
+			switch v {
+			case 0:
 				text += " ; comment"
-			} else {
+			case 1:
 				text += ";c"
+			case 2:
+				text += " ; copy; then advance" // a comment that contains the comment character
+			default:
+				text += ";; mov.i $ 7, $ 7 ; org 2, end" // ... and words that look like syntax
 			}
 		}
 		sb.WriteString(text)
@@ -164,6 +171,8 @@ func applyPerts(lines []string, ps []Pert) (string, bool) {
 				sb.WriteString(";strategy" + eol + ";strategy x")
 			case 7:
 				sb.WriteString(";redcode-94")
+			case 8:
+				sb.WriteString("; x ; y ;; ORG 1 ; END")
 			}
 		}
 	} else {
@@ -363,7 +372,7 @@ func (c *Ctx) RunC09(tier string) {
 			}
 		}
 	}
-	rep.Bound += fmt.Sprintf("; %d warriors x every set of <=2 layout perturbations (quick: <=1, <=2 for one warrior per dialect; thorough: also every set of 3 for three of the five warriors per dialect) out of: case of a line, extra blanks / tab at each of 7 gaps, removed blank after the comma, CR-LF, blank / comment / metadata / whitespace-only / 75000-character comment line at every boundary, trailing comment, missing final newline", nw)
+	rep.Bound += fmt.Sprintf("; %d warriors x every set of <=2 layout perturbations (quick: <=1, <=2 for one warrior per dialect; thorough: also every set of 3 for three of the five warriors per dialect) out of: case of a line, extra blanks / tab at each of 7 gaps, removed blank after the comma, CR-LF, blank / comment / metadata / whitespace-only / 75000-character comment line / comment containing ';' and syntax-like words at every boundary, trailing comment (4 forms, two of them containing ';'), missing final newline", nw)
 	c.runSeq09(thorough)
 	lines := ref.PrintLines(alphabet12(false, 8000)[1:4], 1, false, 8000, ref.SpellSigned)
 	rep.Sample(strings.Join(lines, "\n") + "\n")
